@@ -52,7 +52,7 @@ def useTok : UseRes → String | .ok => "ok" | .unready => "unready" | .err => "
 
 def errTok : ImpErr → String
   | .continuable => "err-continuable" | .revoked => "err-revoked" | .creditNotFound => "err-nocredit"
-  | .noWallet => "err-nowallet" | .notRelevant => "PANIC" | .other => "err"
+  | .noWallet => "err-nowallet" | .other => "err"
 
 def statusTok (s : Store) (w : Wid) : String :=
   match AMap.get s.status w with
